@@ -41,7 +41,7 @@ Proof. split; vm_compute; reflexivity. Qed.
 Lemma w_keys : t_sorted w_table = [[]; bs "a"; bs "c"].
 Proof. vm_compute. reflexivity. Qed.
 
-Lemma w_env : run_env EK (UK lang_update) lang_match lang_update V2 [] w_ops.
+Lemma w_env : run_env (UK lang_update) lang_match lang_update V2 [] w_ops.
 Proof. cbn [run_env w_ops step_env snd fst]. repeat split. Qed.
 
 Example C04_premises_met :
@@ -109,16 +109,10 @@ Example C04_index_premises_met :
      match_key lang_match (ctx_of wi_client) wi_table wi_query (get_item wi_table (snd e)) = Ok (wi_ev (snd e))).
 Proof.
   destruct wi_reach as [R1 [R2 R3]].
-  assert (run_env EK (UK lang_update) lang_match lang_update V2 [] wi_ops) as E1.
-  { unfold wi_ops. cbn [run_env step_env snd fst]. split; [exact I|]. split.
-    - intros t0 H0. vm_compute in H0. inversion H0. split; [reflexivity|left; reflexivity].
-    - repeat split. }
-  assert (run_env EX UAny lang_match lang_update V2 [] wi_ops) as E2.
-  { unfold wi_ops. cbn [run_env step_env snd fst]. split; [exact I|]. split.
-    - intros t0 H0. vm_compute in H0. inversion H0. reflexivity.
-    - repeat split. }
+  assert (run_env (UK lang_update) lang_match lang_update V2 [] wi_ops) as E1.
+  { unfold wi_ops. cbn [run_env step_env snd fst]. repeat split. }
   destruct (KInv_reachable lang_match lang_update V2 wi_ops _ _ _ _ E1 R1 R2) as [HT [HK _]].
-  destruct (XInv_reachable lang_match lang_update V2 wi_ops _ _ _ _ E2 R1 R2) as [_ HX].
+  destruct (XInv_reachable lang_match lang_update V2 wi_ops _ _ _ _ R1 R2) as [_ HX].
   split; [reflexivity|]. split; [exact R3|]. split; [reflexivity|]. split; [vm_compute; reflexivity|].
   split; [exact HK|]. split; [apply (HX (bs "gix")); apply lookup_In; exact R3|].
   intros e He. rewrite wi_entries in He.
